@@ -166,7 +166,8 @@ static scpi_result_t my_control(scpi_t * context, scpi_ctrl_name_t ctrl, scpi_re
         if (srq.n < 16) { srq.val[srq.n] = val; srq.live[srq.n] = SCPI_RegGet(context, SCPI_REG_STB); }
         srq.n++;
     }
-    return SCPI_RES_OK;
+    /* the statement does not make the registers depend on what the application's callback answers: vary it */
+    { static unsigned turn; static const scpi_result_t answers[4] = { SCPI_RES_OK, SCPI_RES_ERR, SCPI_RES_OK, (scpi_result_t) 0 }; return answers[turn++ & 3]; }
 }
 
 static vh_ctx_t * new_ctx(int qcap) {
